@@ -6,6 +6,12 @@ none for payloads not asked) and reports an error only when every batch failed; 
 cached result is served only for the identical unit of work, check block number
 and block hash, and only successful pipeline executions are cached".
 
+Two additions about the code around a check call: the life-cycle calls on the runner (`lifeOk`: `Start` of a running
+runner and `Close` of one that is not running answer an error and change nothing — whatever they do, the check calls
+of the history are judged as always), and a check call made through `Observer.Process` (`ProcObs.ok`: the runner is
+asked exactly what the pre-processors returned, the post-processor gets exactly the runner's results, and the first
+failing stage ends the process with its error before any later stage runs).
+
 It speaks only about what can be observed at the runner's two boundaries: the
 arguments/return values of `Runner.CheckUpkeeps` and the calls the wrapped
 pipeline saw (with its answers).  The driver evaluates it on the implementation's
@@ -129,6 +135,81 @@ def explainTrace (evs : List Ev) (rets : List (Nat × Ret × Bool)) : String :=
   | none => "ok"
   | some (_, some o) => o.explain
   | some (_, none) => "call without return value"
+
+/-! ### the life cycle, as observed: which `Start` / `Close` calls answered an error -/
+
+/-- the runner's flag as the observed answers imply it: a `Start` without error sets it, a `Close`
+without error clears it, a call that answered an error leaves it -/
+def flagAfter (running : Bool) : List (LifeOp × Bool) → Bool
+  | [] => running
+  | (_, true) :: xs => flagAfter running xs
+  | (.start, false) :: xs => flagAfter true xs
+  | (.close, false) :: xs => flagAfter false xs
+
+/-- every life-cycle call answers an error exactly when it is pointless: `Start` of a runner that is
+running (it must not take the runner over a second time), `Close` of one that is not -/
+def lifeOk (running : Bool) : List (LifeOp × Bool) → Bool
+  | [] => true
+  | (op, err) :: xs =>
+    (err == (match op with | .start => running | .close => !running)) &&
+    lifeOk (flagAfter running [(op, err)]) xs
+
+def lifeExplain (running : Bool) : List (LifeOp × Bool) → String
+  | [] => "ok"
+  | (op, err) :: xs =>
+    if err == (match op with | .start => running | .close => !running) then lifeExplain (flagAfter running [(op, err)]) xs
+    else match op, err with
+      | .start, false => "Start on a running runner did not answer an error (a second Start took the runner over)"
+      | .start, true => "Start on a runner that is not running answered an error"
+      | .close, false => "Close on a runner that is not running did not answer an error"
+      | .close, true => "Close on a running runner answered an error"
+
+/-! ### a check call made through `Observer.Process`, as observed -/
+
+/-- everything observed about one `Process` -/
+structure ProcObs where
+  tickFails : Bool
+  tick      : List Payload           -- what the tick hands out
+  pres      : List PreSpec           -- the observer's pre-processors
+  postFails : Bool
+  out       : ProcOut                -- error returned; pre-processors invoked; arguments of processor and post-processor
+  ret       : Option Ret             -- what the processor answered, if it was called
+
+namespace ProcObs
+variable (o : ProcObs)
+
+/-- the first failing stage ends the call with its own error -/
+def codeOk : Bool :=
+  o.out.code ==
+    (if o.tickFails then 1
+     else if (runPres o.pres o.tick).1.isNone then 2
+     else match o.ret with
+       | some r => if r.err then 3 else if o.postFails then 4 else 0
+       | none => 5)
+/-- pre-processors are invoked in order up to and including the first that fails, none after a failing tick -/
+def preOk : Bool := o.out.preCalls == (if o.tickFails then 0 else (runPres o.pres o.tick).2)
+/-- the processor is asked exactly what the last pre-processor returned — and not at all when the tick
+or a pre-processor failed -/
+def askedOk : Bool :=
+  (o.out.asked == (if o.tickFails then none else (runPres o.pres o.tick).1)) && (o.out.asked.isSome == o.ret.isSome)
+/-- the post-processor gets exactly the processor's results, together with the payloads the processor
+was asked about — and is not called when an earlier stage failed -/
+def postOk : Bool :=
+  o.out.post ==
+    (match o.out.asked, o.ret with
+     | some ps, some r => if r.err then none else some (r.values, ps)
+     | _, _ => none)
+
+def ok : Bool := o.codeOk && o.preOk && o.askedOk && o.postOk
+
+def explain : String :=
+  if !o.preOk then "pre-processors not invoked in order up to the first failure"
+  else if !o.askedOk then "the processor was not asked exactly what the pre-processors returned (or was asked after a failed stage)"
+  else if !o.postOk then "the post-processor did not get exactly the processor's results with the processed payloads (or was called after a failed stage)"
+  else if !o.codeOk then "Process did not return the error of the first failing stage"
+  else "ok"
+
+end ProcObs
 
 /-! ### notions used in the statements of Props/C13 (not evaluated at run time) -/
 
